@@ -2,18 +2,19 @@
 
 package yubiagent
 
-// C20 harness, ServeAgent binding: one *server (remote mode) over a real *shimagent.Server (constructed with the
-// exported shimagent.New over a unix socket; the underlying agent is a real keyring behind the harness frame
-// proxy).  Every waiter has its own connection served by ServeAgent and calls client.Wait; every request arrives
+// C20 harness, ServeAgent binding: one agent constructed with the exported NewServer (remote mode) over a unix socket
+// whose far end is a real keyring behind the harness frame proxy; its shim server is found by reflection (for the
+// notify lists; a timing observer is used when there is no such table).  Only exported names of the package are used,
+// every package-level name of this file starts with zvq.  Every waiter has its own connection served by ServeAgent and calls client.Wait; every request arrives
 // on another connection served by ServeAgent for the same *server.  Judging is done by TLC.
 
 import (
 	"encoding/json"
 	"fmt"
 	mrand "math/rand"
+	"errors"
 	"net"
-	"os"
-	"path/filepath"
+	"reflect"
 	"strings"
 	"sync"
 	"sync/atomic"
@@ -23,26 +24,30 @@ import (
 	"github.com/theparanoids/ysshra/agent/shimagent"
 	"github.com/theparanoids/ysshra/verifh"
 	"golang.org/x/crypto/ssh"
-	"golang.org/x/crypto/ssh/agent"
 )
 
-type srvConn struct {
+type zvqSrvConn struct {
 	c   net.Conn
 	pan int32 // ServeAgent panicked, or reported that serving a request panicked
 	bad int32 // ServeAgent ended the connection with an error
 }
 
-type serveWait struct {
-	srv  *server
-	shim *shimagent.Server
+type zvqAddHardReq struct {
+	KeyBlob []byte `sshtype:"31"`
+	Comment string
+}
+
+type zvqServeWait struct {
+	srv  YubiAgent
+	shim *shimagent.Server // nil when the agent does not hold one in a reachable field
 	mu   sync.Mutex
-	idle []*srvConn // request connections that are still usable
-	all  []*srvConn
+	idle []*zvqSrvConn // request connections that are still usable
+	all  []*zvqSrvConn
 
 	classes map[string]int // request classes sent (what the dispatcher did after the broadcast)
 }
 
-func (b *serveWait) Classes() map[string]int {
+func (b *zvqServeWait) Classes() map[string]int {
 	b.mu.Lock()
 	defer b.mu.Unlock()
 	m := map[string]int{}
@@ -52,12 +57,12 @@ func (b *serveWait) Classes() map[string]int {
 	return m
 }
 
-func (b *serveWait) Via() bool { return true }
+func (b *zvqServeWait) Via() bool { return true }
 
 // connect opens a new connection to the agent: a pipe whose far end is served by ServeAgent.
-func (b *serveWait) connect() *srvConn {
+func (b *zvqServeWait) connect() *zvqSrvConn {
 	c1, c2 := net.Pipe()
-	sc := &srvConn{c: c1}
+	sc := &zvqSrvConn{c: c1}
 	go func() {
 		defer c2.Close()
 		defer func() {
@@ -78,7 +83,7 @@ func (b *serveWait) connect() *srvConn {
 	return sc
 }
 
-func (b *serveWait) Wait(code byte) (pan bool, err error) {
+func (b *zvqServeWait) Wait(code byte) (pan bool, err error) {
 	sc := b.connect()
 	defer sc.c.Close()
 	defer func() {
@@ -96,17 +101,17 @@ func (b *serveWait) Wait(code byte) (pan bool, err error) {
 	return atomic.LoadInt32(&sc.pan) == 1 || (err != nil && atomic.LoadInt32(&sc.bad) == 1), err
 }
 
-var hardVariant, slotVariant uint32
+var zvqHardVariant, zvqSlotVariant uint32
 
-// frame builds a request whose first byte is code, never shorter than the dispatcher indexes (shorter frames belong
+// zvqFrame builds a request whose first byte is code, never shorter than the dispatcher indexes (shorter frames belong
 // to another property).  cls names the class of the request: what the dispatcher does with it after the broadcast.
-func frame(code byte, r *mrand.Rand) (f []byte, cls string) {
+func zvqFrame(code byte, r *mrand.Rand) (f []byte, cls string) {
 	switch code {
 	case AgentMessageAddHardCert:
 		k := verifh.PoolKey(r.Intn(2), "ed25519")
-		switch atomic.AddUint32(&hardVariant, 1) % 4 { // every variant in turn
+		switch atomic.AddUint32(&zvqHardVariant, 1) % 4 { // every variant in turn
 		case 0:
-			return ssh.Marshal(agentAddHardCertReq{KeyBlob: k.Pub.Marshal(), Comment: "verif"}), "addhard-wellformed"
+			return ssh.Marshal(zvqAddHardReq{KeyBlob: k.Pub.Marshal(), Comment: "verif"}), "addhard-wellformed"
 		case 1:
 			return append([]byte{code}, k.Pub.Marshal()...), "addhard-oldformat"
 		case 2:
@@ -116,7 +121,7 @@ func frame(code byte, r *mrand.Rand) (f []byte, cls string) {
 		r.Read(g)
 		return append([]byte{code}, g...), "addhard-malformed"
 	case AgentMessageReadSlot, AgentMessageAttestSlot:
-		if atomic.AddUint32(&slotVariant, 1)%2 == 0 {
+		if atomic.AddUint32(&zvqSlotVariant, 1)%2 == 0 {
 			return []byte{code}, "slot"
 		}
 		return []byte{code, '9', 'a'}, "slot"
@@ -151,8 +156,8 @@ func frame(code byte, r *mrand.Rand) (f []byte, cls string) {
 	return f, "forwarded-outside-table"
 }
 
-func (b *serveWait) Request(code byte, r *mrand.Rand) (pan bool, err error) {
-	var sc *srvConn
+func (b *zvqServeWait) Request(code byte, r *mrand.Rand) (pan bool, err error) {
+	var sc *zvqSrvConn
 	b.mu.Lock()
 	if len(b.idle) > 0 && r.Intn(2) == 0 {
 		sc = b.idle[len(b.idle)-1]
@@ -168,7 +173,7 @@ func (b *serveWait) Request(code byte, r *mrand.Rand) (pan bool, err error) {
 		}
 	}()
 	sc.c.SetDeadline(time.Now().Add(25 * time.Second))
-	fr, cls := frame(code, r)
+	fr, cls := zvqFrame(code, r)
 	if err = verifh.WriteFrame(sc.c, fr); err == nil {
 		_, err = verifh.ReadFrame(sc.c)
 	}
@@ -191,18 +196,28 @@ func (b *serveWait) Request(code byte, r *mrand.Rand) (pan bool, err error) {
 	return atomic.LoadInt32(&sc.pan) == 1, nil
 }
 
-func (b *serveWait) Counts() (int, [][2]int, error) { return verifh.CondCounts(b.shim) }
+func (b *zvqServeWait) Counts() (int, [][2]int, error) {
+	if b.shim == nil {
+		return 0, nil, errors.New("no shim server reachable")
+	}
+	return verifh.CondCounts(b.shim)
+}
 
-func (b *serveWait) Release() {
-	for c := 0; c < 256; c++ {
-		func() {
-			defer func() { _ = recover() }()
-			_ = b.shim.Broadcast(byte(c))
-		}()
+func (b *zvqServeWait) Release() {
+	r := mrand.New(mrand.NewSource(1))
+	for c := 0; c < 40; c++ {
+		if b.shim != nil {
+			func() {
+				defer func() { _ = recover() }()
+				_ = b.shim.Broadcast(byte(c))
+			}()
+		} else {
+			_, _ = b.Request(byte(c), r)
+		}
 	}
 }
 
-func (b *serveWait) Close() {
+func (b *zvqServeWait) Close() {
 	b.mu.Lock()
 	for _, sc := range b.all {
 		sc.c.Close()
@@ -210,46 +225,49 @@ func (b *serveWait) Close() {
 	b.mu.Unlock()
 	func() {
 		defer func() { _ = recover() }()
-		_ = b.shim.Close()
+		_ = b.srv.Close()
 	}()
 }
 
-func TestVerifWaitServe(t *testing.T) {
-	dir, err := os.MkdirTemp("", "vw")
-	if err != nil {
-		t.Fatal(err)
+// zvqFindShim looks for the shim server inside the agent (any field that can be read and holds one).
+func zvqFindShim(a YubiAgent) *shimagent.Server {
+	if s, ok := a.(interface{}).(*shimagent.Server); ok {
+		return s
 	}
-	defer os.RemoveAll(dir)
-	sock := filepath.Join(dir, "a.sock")
-	ln, err := net.Listen("unix", sock)
-	if err != nil {
-		t.Fatal(err)
-	}
-	defer ln.Close()
-	go func() {
-		n := int64(0)
-		for {
-			c, err := ln.Accept()
-			if err != nil {
-				return
-			}
-			n++
-			kr := agent.NewKeyring()
-			_ = kr.Add(agent.AddedKey{PrivateKey: verifh.PoolKey(0, "ed25519").Priv, Comment: "k0"})
-			px := verifh.NewProxyIdle(kr, verifh.NewRand("waitserve-proxy", n))
-			px.Serve(c)
+	v := reflect.ValueOf(a)
+	for v.Kind() == reflect.Ptr || v.Kind() == reflect.Interface {
+		if v.IsNil() {
+			return nil
 		}
-	}()
+		v = v.Elem()
+	}
+	if v.Kind() != reflect.Struct {
+		return nil
+	}
+	for i := 0; i < v.NumField(); i++ {
+		f := v.Field(i)
+		if !f.CanInterface() {
+			continue
+		}
+		if s, ok := f.Interface().(*shimagent.Server); ok && s != nil {
+			return s
+		}
+	}
+	return nil
+}
+
+func TestVerifWaitServe(t *testing.T) {
+	sock, cleanup, err := verifh.KeyringListener("wait-serve")
+	if err != nil {
+		t.Fatal(err)
+	}
+	defer cleanup()
 	mk := func(r *mrand.Rand) (verifh.WaitBinding, error) {
-		sa, err := shimagent.New(shimagent.Option{Address: sock})
+		ya, err := NewServer(sock, true)
 		if err != nil {
 			return nil, err
 		}
-		shim, ok := sa.(*shimagent.Server)
-		if !ok {
-			return nil, fmt.Errorf("shimagent.New returned %T", sa)
-		}
-		return &serveWait{srv: &server{ShimAgent: shim, remote: true}, shim: shim, classes: map[string]int{}}, nil
+		return &zvqServeWait{srv: ya, shim: zvqFindShim(ya), classes: map[string]int{}}, nil
 	}
 	sum, err := verifh.RunWaitPlan(mk)
 	if err != nil {
